@@ -404,7 +404,7 @@ def r4(model, rep):
         w_ok = isinstance(val, ast.BinOp) and isinstance(val.op, ast.Mult) and ("%s[%s]" % (PHASES, K)) in (ast.unparse(val.left), ast.unparse(val.right))
         other = val.right if w_ok and ast.unparse(val.left) == "%s[%s]" % (PHASES, K) else (val.left if w_ok else val)
         otxt = ast.unparse(other).replace('"', "'")
-        sel_ok = ".Phase == %s]" % K in otxt and "['Loss (W)']" in otxt
+        sel_ok = (".Phase == %s]" % K in otxt or "[%s == " % K in otxt and ".Phase]" in otxt) and "['Loss (W)']" in otxt
         if not w_ok or not sel_ok:
             ok = False
             rep.violation("R4", "diagram._prep_loss", "%s:%d" % (rel, av[0].lineno), "a phase contributes %s, expected duration(phase) * loss of that phase's rows" % ast.unparse(val), "weighted term")
@@ -415,13 +415,13 @@ def r4(model, rep):
             rep.violation("R4", "diagram._prep_loss", "%s:%d" % (rel, loops[0].lineno), "the weighted sum is not divided by the total duration after the loop", "mean division")
     # the weighted mean is taken exactly when phases are defined, and is written onto one phase's component rows
     top = [x for x in fn.body if isinstance(x, ast.If) and any(y is loops[0] for y in ast.walk(x))]
-    if len(top) != 1 or ast.unparse(top[0].test).replace(" ", "") not in ("%s!={}" % PHASES, "len(%s)>0" % PHASES, PHASES):
+    if len(top) != 1 or ast.unparse(top[0].test).replace(" ", "") not in ("%s!={}" % PHASES, "{}!=%s" % PHASES, "len(%s)>0" % PHASES, "0<len(%s)" % PHASES, PHASES):
         ok = False
         rep.violation("R4", "diagram._prep_loss", where, "the duration-weighted mean is taken under `%s`, expected: when phases are defined" % (ast.unparse(top[0].test) if top else "no condition"), "weighted branch condition")
     else:
         base = [x for x in top[0].body if isinstance(x, ast.Assign) and is_name(x.targets[0], frame)]
         btxt = ast.unparse(base[0].value).replace('"', "'").replace(" ", "") if base else ""
-        if not (len(base) == 1 and ".Phase==list(%s.keys())[" % PHASES in btxt and btxt.endswith(".copy()")):
+        if not (len(base) == 1 and (".Phase==list(%s.keys())[" % PHASES in btxt or ("[list(%s.keys())[" % PHASES in btxt and ".Phase]" in btxt)) and btxt.endswith(".copy()")):
             ok = False
             rep.violation("R4", "diagram._prep_loss", where, "the averaged losses are not written onto the rows of exactly one phase (%s)" % (ast.unparse(base[0].value) if base else "no base frame"), "base frame")
         upd = [x for x in top[0].body if isinstance(x, ast.Expr) and isinstance(x.value, ast.Call) and ast.unparse(x.value.func) == "%s.update" % frame]
@@ -562,7 +562,12 @@ def r5(model, rep):
         E = None
         if is_name(val, F):
             E = 0
-        elif isinstance(val, ast.BinOp) and is_name(val.left, F) and isinstance(val.right, ast.Constant):
+        elif isinstance(val, ast.BinOp) and isinstance(val.op, ast.Mult) and is_name(val.right, F) and isinstance(val.left, ast.Constant) and val.left.value > 0:
+            import math
+            k = math.log10(val.left.value)
+            if abs(k - round(k)) < 1e-9:
+                E = int(round(k))
+        elif isinstance(val, ast.BinOp) and is_name(val.left, F) and isinstance(val.right, ast.Constant) and val.right.value > 0:
             import math
             k = math.log10(val.right.value)
             if abs(k - round(k)) < 1e-9:
